@@ -37,7 +37,7 @@ def setup(E):
     E.declare_class("ReconciliationInput", {
         "object_tree": "Node", "species_lca": "LowestCommonAncestor",
         "leaf_object_species": "Map[Node, Node]", "costs": "Map[Event, Ext]"})
-    E.declare_class("ReconciliationOutput", {"input": "ReconciliationInput", "object_species": "Map[Node, Node]"})
+    E.declare_class("ReconciliationOutput", {"input": "ReconciliationInput", "object_species": "Map[Node, Node]"}, dataclass=True)
 
     # ---- the documented event model, phrased through child-subtree membership (not through lca queries)
     E.spec("event_spec", "s: Node, x: Node, y: Node", "Event", """
@@ -108,7 +108,7 @@ def _labeling(E):
         "costs": "Map[Event, Ext]", "leaf_syntenies": "Map[Node, Seq[Elem]]"})
     E.declare_class("SuperReconciliationOutput", {
         "input": "SuperReconciliationInput", "object_species": "Map[Node, Node]",
-        "syntenies": "Map[Node, Seq[Elem]]", "ordered": "Bool"})
+        "syntenies": "Map[Node, Seq[Elem]]", "ordered": "Bool"}, dataclass=True)
 
     # ---- ordered model: segmental losses per lost run; ends free for the partial copy
     E.spec("node_mask", "syn: Map[Node, Seq[Elem]], tree: Node, n: Node", "Int",
